@@ -35,6 +35,8 @@ def run(prog: Program, rep: Report, tier: str) -> None:
     rep.rule("R17.6", "exclusive bind: no endpoint is created with reuse_port / reuse_address (or an already bound socket), so binding a port that is in use - including by this very bridge on a repeated start - fails instead of orphaning the registered transport", 1)
     rep.rule("R17.7", "restart: start() on an instance whose _transports holds whatever an earlier start/stop cycle left (stop closes the transports but keeps the entries) still creates and registers an endpoint "
                       "for every configured port on each returning path - what is already registered never makes start skip a port, or the bridge would report running while listening on fewer ports", 1)
+    rep.rule("R17.8", "endpoints are not acquired under a plain asyncio.gather: gather(...) without return_exceptions=True re-raises the first failing bind at once while the sibling binds are still in flight, "
+                      "so the roll-back runs before they have registered their transports and those ports stay bound (structural, conditional)", 0, structural=True)
     rep.rule("R17.5", "context manager pairs: __aenter__ awaits start and returns self; __aexit__ awaits stop unconditionally and returns a falsy value", 2)
     rep.explanation = (
         "Decides structural necessary conditions on every path of start/stop/__aenter__/__aexit__ (port loop unrolled 0,1,2 times with symbolic ports): registration of each endpoint, "
@@ -45,6 +47,7 @@ def run(prog: Program, rep: Report, tier: str) -> None:
     rep.trusted += ["asyncio: create_datagram_endpoint raises OSError when the address is in use; _SelectorTransport.close removes the reader synchronously; `async with` does not call __aexit__ when __aenter__ raises"]
     ci = prog.cls("aioswitcher.bridge:SwitcherBridge")
     funcs: Set[str] = set()
+    concurrent_bind_rule(prog, rep)
     # ---- start
     I, outs, fi = B.run_bridge_method(prog, "start", fresh_instance=True)
     funcs |= set(I.functions_visited)
@@ -72,25 +75,11 @@ def run(prog: Program, rep: Report, tier: str) -> None:
             if not ce.awaited:
                 bad1 = f"iteration {i}: create_datagram_endpoint is not awaited"
     rep.check(bad1 is None and len(rets) >= 3, "R17.1", "start registers every endpoint", where, bad1 or f"only {len(rets)} returning paths explored", key="R17.1|start")
-    # ---- R17.7: the same count on an instance with history (unknown content of _transports)
+    # ---- R17.7: the same count on an instance with history (unknown content of _transports); shared with C07 R7.7
     try:
-        I7, outs7, _fi7 = B.run_bridge_method(prog, "start", fresh_instance=False)
-        funcs |= set(I7.functions_visited)
-        bad7 = None
-        rets7 = [o for o in outs7 if o.kind == "return"]
-        for o in rets7:
-            k = iter_count(o)
-            cde = B.ev_calls(o, ".create_datagram_endpoint")
-            stores = [e for e in o.state.events if e.kind == "storeitem" and e.target == "self._transports"]
-            # a port may be skipped only when the path has established that its registered transport is still open
-            from ..interp import neg as _neg
-            pcs7 = _flat(o.state.pc)
-            live = [e for e in o.state.events if e.kind == "call" and e.target.endswith(".is_closing") and (_neg(("truthy", e.result)) in pcs7 or ("not", ("truthy", e.result)) in pcs7)]
-            if k is None or len(cde) + len(live) < min(k, 2) or len(cde) > min(k, 2) or len(stores) != len(cde):
-                looked = [e for e in o.state.events if e.kind == "call" and e.target.startswith("self._transports.")]
-                bad7 = (f"restart path with {k} port(s): {len(cde)} endpoints created, {len(stores)} registered"
-                        + (f" after consulting {looked[0].target}() - entries left by an earlier start/stop cycle make start skip the port while the flag is still set" if looked else ""))
-        rep.check(bad7 is None and len(rets7) >= 3, "R17.7", "restart binds every port", where, bad7 or f"only {len(rets7)} returning paths explored", key="R17.7|restart")
+        bad7, n7, funcs7 = B.restart_check(prog, iter_count, _flat)
+        funcs |= funcs7
+        rep.check(bad7 is None and n7 >= 3, "R17.7", "restart binds every port", where, bad7 or f"only {n7} returning paths explored", key="R17.7|restart")
     except AnalysisError as e7:
         rep.undecided("R17.7", "restart binds every port", where, f"start() on an instance with history is not analysable: {e7}")
     bad6 = None
@@ -269,3 +258,37 @@ def _flat(pc: List[T.Term]) -> List[T.Term]:
 
 def _iter_sources(fn: ast.AST) -> Set[str]:
     return {ast.unparse(n.iter) for n in ast.walk(fn) if isinstance(n, (ast.For, ast.AsyncFor))}
+
+
+def concurrent_bind_rule(prog: Program, rep: Report) -> None:
+    """R17.8: `gather(...)` (no return_exceptions=True) over coroutines of the bridge module that create datagram endpoints."""
+    mod = prog.module("aioswitcher.bridge")
+    byname = {fi.qualname.split(".")[-1]: fi for fi in mod.all_functions()}
+
+    def binds(fi: Any, depth: int = 0) -> bool:
+        for n in ast.walk(fi.node):
+            if isinstance(n, ast.Call):
+                f = n.func
+                nm = f.attr if isinstance(f, ast.Attribute) else f.id if isinstance(f, ast.Name) else ""
+                if nm == "create_datagram_endpoint":
+                    return True
+                if depth < 2 and nm in byname and byname[nm] is not fi and binds(byname[nm], depth + 1):
+                    return True
+        return False
+
+    for fi in mod.all_functions():
+        for n in ast.walk(fi.node):
+            if not isinstance(n, ast.Call):
+                continue
+            f = n.func
+            nm = f.attr if isinstance(f, ast.Attribute) else f.id if isinstance(f, ast.Name) else ""
+            if nm != "gather":
+                continue
+            if any(k.arg == "return_exceptions" and isinstance(k.value, ast.Constant) and k.value.value is True for k in n.keywords):
+                continue
+            names = {x.attr if isinstance(x, ast.Attribute) else x.id for a in n.args for x in ast.walk(a) if isinstance(x, (ast.Attribute, ast.Name))}
+            binders = sorted(nm2 for nm2 in names if nm2 in byname and byname[nm2].is_async and binds(byname[nm2]))
+            if binders:
+                rep.bad("R17.8", f"{fi.qualname}: gather over {binders}", f"{mod.relpath}:{n.lineno} {fi.qualname}",
+                        f"`{ast.unparse(n)[:90]}` binds the ports concurrently: when one bind fails gather raises immediately and the others keep running, so a roll-back in the caller "
+                        f"(stop()) runs before they have stored their transports - start() raises but ports stay bound and keep delivering", key=f"R17.8|{fi.qualname}")
